@@ -87,9 +87,10 @@ type tracked struct {
 // FS is the harness file system. It is not safe for concurrent use by free-running goroutines;
 // under the cooperative scheduler exactly one thread runs at a time.
 type FS struct {
-	files  map[string]*Inode
-	dirs   map[string]bool
-	nextID int
+	files      map[string]*Inode
+	dirs       map[string]bool
+	nextID     int
+	nextHandle int
 
 	Record bool
 	Log    []Op
@@ -233,7 +234,8 @@ func (f *FS) OpenFile(name string, flag int, perm os.FileMode) (fs.File, error) 
 	in.Handles++
 	f.Stats.OpenHandles++
 	ro := flag&(os.O_RDWR|os.O_WRONLY) == 0
-	return &File{fs: f, in: in, name: name, readonly: ro}, nil
+	f.nextHandle++
+	return &File{fs: f, in: in, name: name, readonly: ro, id: f.nextHandle}, nil
 }
 
 // Stat implements fs.FileSystem.
@@ -435,14 +437,26 @@ type File struct {
 	off      int64
 	readonly bool
 	closed   bool
+	id       int
 }
 
 var _ fs.File = (*File)(nil)
+
+// acc reports an access to the handle's own state - the part of an open file that is not safe for
+// concurrent use even on a file system whose calls are atomic: "map" = length and memory mapping of
+// the handle (written by Write/WriteAt/Truncate/Close, read by Slice; cf. osMMapFile), "off" = the
+// sequential offset (Seek/Read/Write). No Stats are touched and no yield is implied.
+func (h *File) acc(label, sub string, write bool) {
+	if h.fs.Hook != nil {
+		h.fs.Hook(label, fmt.Sprintf("h:%d:%s", h.id, sub), write, 0, 0)
+	}
+}
 
 func (h *File) obj() string { return inoObj(h.in) }
 
 // Close implements fs.File.
 func (h *File) Close() error {
+	h.acc("Close", "map", true)
 	h.fs.hook("Close", h.obj()+":handle", false, 0, 0)
 	if h.closed {
 		return os.ErrClosed
@@ -483,6 +497,7 @@ func (h *File) ReadAt(p []byte, off int64) (int, error) {
 
 // Read implements fs.File.
 func (h *File) Read(p []byte) (int, error) {
+	h.acc("Read", "off", true)
 	h.fs.hook("Read", h.obj(), false, h.off, h.off+int64(len(p)))
 	if h.closed {
 		return 0, os.ErrClosed
@@ -525,6 +540,7 @@ func (h *File) writeAt(p []byte, off int64) (int, error) {
 
 // WriteAt implements fs.File.
 func (h *File) WriteAt(p []byte, off int64) (int, error) {
+	h.acc("WriteAt", "map", true)
 	h.fs.hook("WriteAt", h.obj(), true, off, off+int64(len(p)))
 	if h.closed {
 		return 0, os.ErrClosed
@@ -537,6 +553,8 @@ func (h *File) WriteAt(p []byte, off int64) (int, error) {
 
 // Write implements fs.File.
 func (h *File) Write(p []byte) (int, error) {
+	h.acc("Write", "map", true)
+	h.acc("Write", "off", true)
 	h.fs.hook("Write", h.obj(), true, h.off, h.off+int64(len(p)))
 	if h.closed {
 		return 0, os.ErrClosed
@@ -548,6 +566,7 @@ func (h *File) Write(p []byte) (int, error) {
 
 // Seek implements fs.File.
 func (h *File) Seek(offset int64, whence int) (int64, error) {
+	h.acc("Seek", "off", true)
 	if h.closed {
 		return 0, os.ErrClosed
 	}
@@ -590,6 +609,7 @@ func (h *File) Sync() error {
 
 // Truncate implements fs.File.
 func (h *File) Truncate(size int64) error {
+	h.acc("Truncate", "map", true)
 	h.fs.hook("Truncate", h.obj(), true, 0, 0)
 	if h.closed {
 		return os.ErrClosed
@@ -614,6 +634,7 @@ func (h *File) Truncate(size int64) error {
 
 // Slice implements fs.File.
 func (h *File) Slice(start int64, end int64) ([]byte, error) {
+	h.acc("Slice", "map", false)
 	h.fs.hook("Slice", h.obj(), false, start, end)
 	if h.closed {
 		return nil, os.ErrClosed
